@@ -175,6 +175,11 @@ def str_expr(v):
     return mk(N.StrExpr, value=v)
 
 
+def self_expr(name: str = "self"):
+    """The receiver as mypy sees it inside a method: a NameExpr whose node is the Var of the first argument (is_self)."""
+    return name_expr(name, name, node=var(name, None, is_self=True))
+
+
 def name_expr(name: str, fullname: str | None = None, node=None):
     return mk(N.NameExpr, name=name, fullname=fullname if fullname is not None else name, node=node)
 
@@ -314,6 +319,10 @@ def class_def(name: str, fullname: str, body=(), bases=(), removed_bases=(), inf
     """bases: base_type_exprs (NameExpr with node TypeInfo / fullname), removed_bases: e.g. Generic[T] index expressions."""
     return mk(N.ClassDef, name=name, fullname=fullname, defs=block(body), base_type_exprs=list(bases),
               removed_base_type_exprs=list(removed_bases), info=type_info(fullname, info_bases))
+
+
+def star_expr(expr):
+    return mk(N.StarExpr, expr=expr, valid=True)
 
 
 def index_expr(base, index):
